@@ -131,7 +131,9 @@ class Check:
             # names around the extension rule ("the lower-cased name ends with a configured extension"): a dot-file that IS an extension,
             # the same last extension with and without a longer configured one in front, upper case, an extension without its dot
             have_ = {n["path"] for n in world["nodes"]}
-            for nm_ in rng.sample([".gz", ".mp3", "x.gz", "a.tar.gz", "B.GZ", "gz", "song.mp3.txt", ".rs", "noext2", "lib.rs", ".tar.gz", "pic.JPG", "jpg", "v.mp4.", "doc.pdf"], rng.choice([4, 8, 15])):
+            for nm_ in rng.sample([".gz", ".mp3", "x.gz", "a.tar.gz", "B.GZ", "gz", "song.mp3.txt", ".rs", "noext2", "lib.rs", ".tar.gz", "pic.JPG", "jpg", "v.mp4.", "doc.pdf",
+                                   # names that are not valid UTF-8 (Latin-1 on a UTF-8 system) but end with an extension all the same
+                                   "caf\udce9.pdf", "r\udce9sum\udce9.DOC", "\udcff.mp3"], rng.choice([4, 8, 18])):
                 if top + "/" + nm_ not in have_:
                     world["nodes"].append({"path": top + "/" + nm_, "type": rng.choice(["file", "file", "file", "dir"]), **({})})
             for n in world["nodes"]:
@@ -460,14 +462,16 @@ class Check:
             if res.sim or res.status != 0 or res.signal is not None:
                 return [Violation(PROP, "C04.meta", ["C04.meta", "abnormal_end", "-"], {"query": q, "outcome": res.summary()})]
             rows = res.rows(len(cols))
-            want_paths = sorted(n["path"] for n in world["nodes"] if n["path"] != top)
+            lossy = lambda t: t.encode("utf-8", "surrogateescape").decode("utf-8", "replace")  # how fselect prints names
+            real_of = {lossy(n["path"]): n["path"] for n in world["nodes"] if n["path"] != top}
+            want_paths = sorted(real_of)
             if sorted(b2s(r[pi]) for r in rows) != want_paths:
                 return [Violation(PROP, "C04.meta", ["C04.meta", "row_set", "-"], {"query": q, "rows": len(rows), "want": len(want_paths)})]
             users = plan.get("users", {})
             groups = plan.get("groups", {})
             for row in rows:
                 got = dict(zip(cols, [b2s(x) for x in row]))
-                path = got["path"]
+                path = real_of[got["path"]]
                 st = os.lstat(os.path.join(sb.root, path))
                 ov = plan.get("stat", {}).get(path, {})
                 mt = ov.get("mtime", st.st_mtime_ns)
@@ -504,6 +508,7 @@ class Check:
                     # a link's own content size is the length of its target text (lstat), whatever it points to
                     want["is_empty"] = "true" if ov.get("size", st.st_size) == 0 else "false"
                 for k, w in want.items():
+                    w = lossy(w)
                     if got[k] != w:
                         kind = "overlay" if (k in ("size", "uid", "gid", "inode", "hardlinks", "blocks", "modified", "user", "group") and ov) else "real"
                         viols.append(Violation(PROP, "C04.meta", ["C04.meta", k, nm[path]["type"]],
